@@ -17,15 +17,15 @@ func init() { Registry["C20"] = c20 }
 
 // flaky is a scripted wrapped getter: fails `failures` times (forever if < 0), then succeeds.
 type flaky struct {
-	mu       sync.Mutex
-	failures int
-	start    time.Time
-	attempts []time.Duration
-	hdr      map[string][]string
-	body     []byte
+	mu          sync.Mutex
+	failures    int
+	start       time.Time
+	attempts    []time.Duration
+	hdr         map[string][]string
+	body        []byte
 	failLatency time.Duration
-	latency  map[int]time.Duration // attempt index -> how long the wrapped getter takes to answer
-	maxCalls int // safety valve against a spinning loop: after this many attempts, sleep a little per call
+	latency     map[int]time.Duration // attempt index -> how long the wrapped getter takes to answer
+	maxCalls    int                   // safety valve against a spinning loop: after this many attempts, sleep a little per call
 }
 
 func (f *flaky) Get(url string) (map[string][]string, []byte, error) {
@@ -49,7 +49,7 @@ func (f *flaky) Get(url string) (map[string][]string, []byte, error) {
 
 type retryCase struct {
 	timeout, cap time.Duration
-	failures     int // -1 = forever
+	failures     int           // -1 = forever
 	slowSuccess  time.Duration // the successful attempt takes this long to answer (it may straddle the deadline)
 	slowFailure  time.Duration // every failing attempt takes this long to answer
 }
@@ -255,7 +255,6 @@ func head(d []time.Duration, n int) []time.Duration {
 	}
 	return d
 }
-
 
 // retryHeaders is what the wrapped getter answers with: names in and out of Go's canonical form (Intel documents
 // "TCB-Info-Issuer-Chain"), two spellings of one name, a name without values, several values.
